@@ -26,7 +26,7 @@ CLAIMED = {
    note="Trusted: strconv as the definition of validity; the model. Cases that the library rejects are skipped (acceptance is C12/C13's subject) - the evidence counts them (0 on the pinned tree).",
    tech="deterministic simulation: environment-state fault injection (unset/empty/invalid/padded) against an executable precedence model"),
  "C07": dict(cat="exploration", ref="DESIGN.md section 4 (C07 and C14)",
-   text="Command trees (depth 0..4, sessions up to 6; odd but legal names; sub-commands whose initializer sets its own error policy) with recording callbacks on every level; an invocation valid by construction is left valid or rejected by one cause at one level (missing / surplus positional, undeclared option incl. number-like ones, int / bool conversion failure, injected Set error on a custom value at its k-th call); the error stream follows a fault plan (healthy / closed / fail after N bytes / short writes); every case is executed under all three application policies and the process end is observed through the exit seam against the rejecting command's effective policy (return / exit 2 once / panic with the error). Phases: seeded; scheduled pairs (two cases as concurrent simulated processes); sessions (one application object, 2..3 different command lines). Oracle: nothing runs, error text and usage of the rejecting command on a healthy stream, policy-exact end, transcript identical across policies; accepted invocations run the path and return nil.",
+   text="Command trees (depth 0..4, sessions up to 6; odd but legal names; sub-commands whose initializer sets its own error policy) with recording callbacks on every level; an invocation valid by construction is left valid or rejected by one cause at one level (missing / surplus positional, undeclared option incl. number-like ones, int / bool conversion failure - for a scalar option under a repetition also in an occurrence that is not the last one -, injected Set error on a custom value at its k-th call); the error stream follows a fault plan (healthy / closed / fail after N bytes / short writes); every case is executed under all three application policies and the process end is observed through the exit seam against the rejecting command's effective policy (return / exit 2 once / panic with the error). Phases: seeded; scheduled pairs (two cases as concurrent simulated processes); sessions (one application object, 2..3 different command lines). Oracle: nothing runs, error text and usage of the rejecting command on a healthy stream, policy-exact end, transcript identical across policies; accepted invocations run the path and return nil.",
    note="Sampling. The level templates have a language known by construction (no second parser). Stream content clauses only under a healthy stream.",
    tech="deterministic simulation: rejection and Set-error injection x stream fault plans x error policies, process end observed at an exit seam"),
  "C12": dict(cat="exploration", ref="DESIGN.md section 4 (C12)",
